@@ -290,7 +290,11 @@ fn check(t: &mut Tape, cx: &mut Cx) -> Res {
         let junk = t.raw(junk_n);
         let len = if t.chance(50) { t.below(6) } else { 6 + junk.len() + 1 + t.below(40) }.min(0x3ff);
         let attr = ASSIGNED[t.below(39)];
-        body.extend_from_slice(&[(((len >> 8) as u8) << 6) | 1, len as u8, 0, 0]);
+        // ... whatever its other header fields say: H bit, vendor id (the length is judged before anything else)
+        let vend: u16 = if t.chance(40) { 1 + t.below(65535) as u16 } else { 0 };
+        let hbit = if t.chance(20) { 0x02 } else { 0 };
+        body.extend_from_slice(&[(((len >> 8) as u8) << 6) | 1 | hbit, len as u8]);
+        body.extend_from_slice(&vend.to_be_bytes());
         body.extend_from_slice(&attr.to_be_bytes());
         body.extend_from_slice(&junk);
         // junk that looks like a bad record must not add an error
